@@ -14,6 +14,7 @@
    are counted in the evidence of that run. *)
 From Coq Require Import NArith List Bool.
 From LLRP Require Import Base.Bits Header.Header Header.HeaderProofs Header.TablesCheck.
+From LLRP Require Import Header.ClientState Header.ClientStateProofs.
 Import ListNotations.
 Open Scope N_scope.
 
@@ -112,6 +113,73 @@ Theorem C19_batch_decode_pointwise : forall bufs i b, nth_error bufs i = Some b 
 Proof. exact decode_batch_nth. Qed.
 Print Assumptions C19_batch_decode_pointwise.
 
+(* decoding is a function of the header bytes alone.  Client.readHeader is a method and could
+   look at anything the Client holds - the version in use, whether the first message has been
+   seen, negotiation under way or finished (at 1.0.1, at 1.1, lowered), outstanding requests,
+   CloseConnection sent, Close called.  [cstate] is that state, [client_run (c_new v t) evs] the
+   state after the connection history evs.  For every state: same result as on the bare bytes ... *)
+Theorem C19_read_header_any_state : forall (c : cstate) s,
+  client_read_header c true s = read_header s.
+Proof. exact client_read_header_stateless. Qed.
+Print Assumptions C19_read_header_any_state.
+
+Theorem C19_read_header_state_independent : forall (c c' : cstate) s,
+  client_read_header c true s = client_read_header c' true s.
+Proof. exact client_read_header_indep. Qed.
+Print Assumptions C19_read_header_state_independent.
+
+(* ... i.e. version = bits 3-5, type = bits 6-15, length field - 10, id, whatever the state; and
+   only short streams and length fields below 10 are rejected, whatever the state *)
+Theorem C19_read_header_any_state_fields : forall (c : cstate) s, (10 <= length s)%nat -> bytes_ok s ->
+  client_read_header c true s =
+    if field 16 32 s <? 10 then HErr ErrLenBelowHeader
+    else HOk (mkHdr (field 3 3 s) (field 6 10 s) (field 16 32 s - 10) (field 48 32 s)).
+Proof. exact client_read_header_fields. Qed.
+Print Assumptions C19_read_header_any_state_fields.
+
+Theorem C19_read_header_any_state_rejects : forall (c : cstate) s, bytes_ok s ->
+  (exists h, client_read_header c true s = HOk h) <-> ((10 <= length s)%nat /\ 10 <= field 16 32 s).
+Proof. exact client_read_header_accepts_iff. Qed.
+Print Assumptions C19_read_header_any_state_rejects.
+
+(* for all configurations and all connection histories *)
+Theorem C19_read_header_after_any_history : forall v timeout (evs : list cevent) s,
+  client_read_header (client_run (c_new v timeout) evs) true s = read_header s.
+Proof. exact (fun v t => client_read_header_history (c_new v t)). Qed.
+Print Assumptions C19_read_header_after_any_history.
+
+(* every header the read side (checkInitialMessage, then the read loop) decodes along a history
+   is the header of the bytes it was given at that point *)
+Theorem C19_read_side_decodes_along_history : forall v timeout (evs : list cevent),
+  client_observe (c_new v timeout) evs = map read_header (client_reads (c_new v timeout) evs).
+Proof. exact (fun v t evs => client_observe_reads evs (c_new v t)). Qed.
+Print Assumptions C19_read_side_decodes_along_history.
+
+(* encoding by a Client is likewise independent of its state: writeHeader writes the bytes of the
+   header; what the encoder accepts is written as its encoding and read back, by a client in any
+   other state, as the same header *)
+Theorem C19_write_header_state_independent : forall (c c' : cstate) h,
+  client_write_header c h = client_write_header c' h.
+Proof. exact client_write_header_indep. Qed.
+Print Assumptions C19_write_header_state_independent.
+
+Theorem C19_write_read_any_states : forall (c c' : cstate) h b, wf_hdr h -> h_ver h < 8 ->
+  hdr_encode h = Some b -> client_read_header c' true (client_write_header c h) = HOk h.
+Proof. exact client_write_read_roundtrip. Qed.
+Print Assumptions C19_write_read_any_states.
+
+(* the only field of the Client that readHeader consults: with a timeout configured, a connection
+   that refuses the read deadline is reported; the configuration is not changed by any history *)
+Theorem C19_read_header_deadline : forall v timeout (evs : list cevent) s,
+  client_read_header (client_run (c_new v timeout) evs) false s =
+    if timeout then HErr ErrDeadline else read_header s.
+Proof.
+  exact (fun v t evs s => eq_trans (client_read_header_deadline _ s)
+     (f_equal (fun b : bool => if b then HErr ErrDeadline else read_header s)
+        (client_run_timeout evs (c_new v t)))).
+Qed.
+Print Assumptions C19_read_header_deadline.
+
 (* ---------------------------------------------------------------- Part 2: tables (generic) *)
 
 (* every message type the library can instantiate reports that same type code *)
@@ -174,6 +242,21 @@ Proof. vm_compute. reflexivity. Qed.
 Example C19_example_refused : hdr_encode (mkHdr 1 950 0 0) = None /\ hdr_encode (mkHdr 1 1024 0 0) = None
   /\ hdr_encode (mkHdr 1 1 4294967286 0) = None.
 Proof. vm_compute. repeat split; reflexivity. Qed.
+(* connection histories: negotiated 1.1; lowered to 1.0.1; closed while a request is outstanding *)
+Example C19_example_state_negotiated :
+  client_run (c_new 2 false) [EvConn; EvFirst; EvGsv 1 2; EvSpv] = mkC 2 false PReady 0 false false
+  /\ client_run (c_new 2 true) [EvConn; EvFirst; EvGsv 1 1; EvReq; EvClose] = mkC 1 true PReady 1 false true
+  /\ client_run (c_new 2 false) [EvConn; EvFirst; EvGsv 1 2] = mkC 2 false PNegSpv 0 false false.
+Proof. vm_compute. repeat split; reflexivity. Qed.
+(* a client that has negotiated 1.1 decodes a KEEPALIVE stamped 1.0.1 (and one stamped 7) as sent *)
+Example C19_example_state_decode :
+  client_read_header (client_run (c_new 2 false) [EvConn; EvFirst; EvGsv 1 2; EvSpv]) true
+    [4; 62; 0; 0; 0; 10; 1; 2; 3; 4] = HOk (mkHdr 1 62 0 16909060)
+  /\ client_observe (c_new 2 false)
+       [EvConn; EvFirst; EvGsv 1 2; EvSpv; EvRecv [28; 62; 0; 0; 0; 10; 0; 0; 0; 9]; EvClose;
+        EvRecv [4; 63; 0; 0; 0; 11; 0; 0; 0; 1; 255]; EvRecv [4; 62; 0; 0; 0; 10; 0; 0; 0; 2]]
+     = [HOk (mkHdr 7 62 0 9); HOk (mkHdr 1 63 1 1)].
+Proof. vm_compute. split; reflexivity. Qed.
 (* the version field is not checked by the encoder (not demanded by the property; recorded) *)
 Example C19_note_version_unchecked :
   exists h b, wf_hdr h /\ hdr_encode h = Some b /\ hdr_decode b <> HOk h.
